@@ -546,6 +546,9 @@ def run(run, model):
     run.try_rule(r02_14, model)
     run.try_rule(r02_15, model)
     run.try_rule(r02_16, model)
+    from rules import c08 as _c08
+    run.rule("R02.17", "no function that is still mentioned is pruned (shared with C08 R08.14): a dangling function name is an undeclared identifier in Go")
+    run.try_rule(_c08.r08_14, model)
     from rules import c06
     run.rule("R02.13", "no type switch on a variable that an enclosing type switch rebound at a struct type (shared with C06 R06.11)")
     run.try_rule(c06.r06_11, model)
